@@ -832,8 +832,11 @@ static int conf_replace_value(struct conf_node_base *target_, struct conf_node_b
             struct conf_node_inaddr *source;
 
             source = ENCLOSING_STRUCT(source_, struct conf_node_inaddr, base);
+            /* Take ownership of the parsed strings. */
             target->hostname = source->hostname;
             target->service = source->service;
+            source->hostname = NULL;
+            source->service = NULL;
         } else {
             target->hostname = NULL;
             target->service = NULL;
